@@ -130,6 +130,17 @@ class Check:
         if closed != len(names):
             return False, "Print Assumptions reports axioms: " + " | ".join(axioms[:10])
         self.cov["discharged"] = nob
+        if self.tier == "thorough":
+            # independent re-check of the compiled property files and everything they depend on
+            mods = " ".join("Minter." + os.path.basename(tf)[:-2] for tf in theorem_files)
+            rc, out = sh(f"cd {COQ} && timeout 5400 coqchk -silent -o -Q Generated Minter -Q Model Minter -Q Proofs Minter -Q Properties Minter {mods}", timeout=5500)
+            summ = out[out.find("CONTEXT SUMMARY"):] if "CONTEXT SUMMARY" in out else out[-600:]
+            ok = rc == 0 and all(f"{k} <none>" in re.sub(r"\s+", " ", summ) for k in
+                                 ("Axioms:", "relying on type-in-type:", "relying on unsafe (co)fixpoints:", "positivity is assumed:"))
+            self.cov["coqchk"] = re.sub(r"\s+", " ", summ)[:600]
+            self.cov["checker_cmd"] += f"; coqchk -silent -o {mods}"
+            if not ok:
+                return False, "coqchk -o does not report a clean context: " + self.cov["coqchk"]
         self.cov["proof_gate_s"] = round(time.time() - t, 1)
         return True, ""
 
